@@ -92,6 +92,9 @@ def graphs(tier, seed):
             if g.number_of_edges() <= 8:
                 yield {"n": 5, "edges": sorted(tuple(sorted(e)) for e in g.edges()),
                        "labels": enumr.relabelings(5, seed, kinds=("sparse",))[0], "second_call": False}
+                # labels 1000, 1007, ...: each occurrence in the edge list is a separate int object
+                yield {"n": 5, "edges": sorted(tuple(sorted(e)) for e in g.edges()),
+                       "labels": enumr.relabelings(5, seed, kinds=("large",))[0], "second_call": False}
     if tier == "thorough":
         for mask in enumr.labelled_graph_masks(5):
             yield {"n": 5, "edges": enumr.mask_edges(5, mask), "labels": None, "second_call": False}
@@ -154,7 +157,7 @@ def make_body(verts, edges, limits, mutate=False):
     def body():
         G = nx.Graph()
         G.add_nodes_from(verts)
-        G.add_edges_from(edges[:-1] if mutate else edges)
+        G.add_edges_from(enumr.fresh_edges(edges[:-1] if mutate else edges))
         out = None
         for step, lim in enumerate(limits):
             if mutate and step == 1:
